@@ -36,8 +36,8 @@ CHECK = {
                     "limit 0 implies offset 0 (View.SearchStreams computes offset = page*limit)",
                     "engine errors documented as unsupported (complex host condition, SubQueries, mixed converter names) discard the search"],
     "campaigns": [
-        {"test": "TestVerifC02", "checks": {"quick": 48000, "thorough": 800000}, "timeout": {"quick": 600, "thorough": 3600}},
-        {"test": "TestVerifC02Sub", "checks": {"quick": 10000, "thorough": 300000}, "timeout": {"quick": 600, "thorough": 3600}},
+        {"test": "TestVerifC02", "checks": {"quick": 48000, "thorough": 400000}, "timeout": {"quick": 900, "thorough": 7200}},
+        {"test": "TestVerifC02Sub", "checks": {"quick": 10000, "thorough": 200000}, "timeout": {"quick": 900, "thorough": 7200}},
         {"test": "TestVerifC02Fixed", "fixed": True, "checks": {"quick": 1, "thorough": 1}},
     ],
 }
